@@ -60,7 +60,6 @@ type Target struct {
 	name            string             // name of the target
 	t               *ctree.Tree        // actual cache of target data
 	client          func(*ctree.Leaf)  // Function to pass all cache updates to.
-	sync            bool               // denotes whether this cache is in sync with target
 	meta            *metadata.Metadata // metadata associated with target
 	lat             *latency.Latency   // latency measurements
 	tsmu            sync.Mutex         // protects latest timestamp
@@ -475,6 +474,14 @@ func (t *Target) GnmiUpdate(n *pb.Notification) error {
 	return nil
 }
 
+// synced reports whether this cache is in sync with the target. The state is
+// kept in the metadata, which is safe for use by the update stream and the
+// periodic metadata refresh concurrently.
+func (t *Target) synced() bool {
+	s, _ := t.meta.GetBool(metadata.Sync)
+	return s
+}
+
 func (t *Target) checkTimestamp(ts time.Time) {
 	// Locking ensures that d.ts is always increasing regardless of the order in
 	// which updates are processed in parallel by multiple goroutines.
@@ -510,8 +517,7 @@ func (t *Target) gnmiUpdate(n *pb.Notification) (*ctree.Leaf, error) {
 			if !ok {
 				return nil, fmt.Errorf("%v : has value %v of type %T, expected boolean", metadata.Path(metadata.Sync), u.Val, u.Val)
 			}
-			t.sync = tv.BoolVal
-			t.meta.SetBool(metadata.Sync, t.sync)
+			t.meta.SetBool(metadata.Sync, tv.BoolVal)
 		case metadata.Connected:
 			tv, ok := u.Val.Value.(*pb.TypedValue_BoolVal)
 			if !ok {
@@ -571,7 +577,7 @@ func (t *Target) gnmiUpdate(n *pb.Notification) (*ctree.Leaf, error) {
 			return nil, nil
 		}
 		// Compute latency for updated leaves.
-		if t.sync && realData {
+		if realData && t.synced() {
 			// Record latency for post-sync target updates.  Exclude metadata updates.
 			t.lat.Compute(T(n.GetTimestamp()))
 		}
@@ -585,7 +591,7 @@ func (t *Target) gnmiUpdate(n *pb.Notification) (*ctree.Leaf, error) {
 		t.meta.AddInt(metadata.LeafCount, 1)
 		t.meta.AddInt(metadata.AddCount, 1)
 		// Compute latency for new leaves.
-		if t.sync {
+		if t.synced() {
 			// Record latency for post-sync target updates.  Exclude metadata updates.
 			t.lat.Compute(T(n.GetTimestamp()))
 		}
